@@ -27,7 +27,7 @@ RULE = ("pairwise covering array over (grid, energy, cutoff, edge, aperture clas
         "PlaneWave.build, continuous values seeded; every evaluation is non-trivial (a non-empty probe); two cases are "
         "distinct when their case dicts differ")
 BOUNDS = {
-    "grids": [[16, 16], [15, 15], [15, 20], [24, 9], [32, 17], [9, 32], [1, 16]],
+    "grids": [[16, 16], [15, 15], [15, 20], [24, 9], [32, 17], [9, 32], [8, 12]],
     "energy_eV": [2e4, 3e5],
     "semiangle_cutoff_mrad": "0.5 angular pixel .. 3x the grid's maximum angle",
     "tilt_mrad": [-40, 40],
@@ -45,7 +45,7 @@ CONTRACTS = ["abtem/waves.py:Probe.build", "abtem/waves.py:Probe._calculate_arra
              "abtem/waves.py:PlaneWave._calculate_array"]
 
 GRIDS = [((16, 16), (8.0, 8.0)), ((15, 15), (7.5, 7.5)), ((15, 20), (8.0, 10.0)), ((24, 9), (9.6, 5.4)),
-         ((32, 17), (6.0, 9.0)), ((9, 32), (5.0, 12.0)), ((1, 16), (0.5, 8.0))]
+         ((32, 17), (6.0, 9.0)), ((9, 32), (5.0, 12.0)), ((8, 12), (4.0, 5.0))]
 APERTURES = ["default", "default", "default", "vortex", "annular", "bullseye", "zernike", "radial", "ctf"]
 TILTS = ["zero", "pp", "mp", "pm", "mm", "xdist", "ydist", "xydist", "pairs"]
 POSITIONS = ["default", "origin", "single", "list", "grid", "line"]
